@@ -1,12 +1,13 @@
 // C02: resolvers receive arguments exactly as GraphQL input coercion defines.
-//   A. argument-heavy valid operations on every generated configuration: the canonicalised Go
-//      arguments each resolver received (recorded by the universal resolver) must equal the
-//      reference coercion (they are part of the invocation identity compared by diffrun).
-//   B. injected uncoercible values (literal and variable) at every argument position of the probe:
-//      the request must be refused in one of the two legitimate shapes (request-level, or
-//      field-level error under fieldPath+[arg...] with the field's resolver not called).
-//   C. numeric and custom-scalar arguments at width boundaries through the generated server: the
-//      resolver sees the same mathematical number or the field is refused - never another number.
+//
+//	A. argument-heavy valid operations on every generated configuration: the canonicalised Go
+//	   arguments each resolver received (recorded by the universal resolver) must equal the
+//	   reference coercion (they are part of the invocation identity compared by diffrun).
+//	B. injected uncoercible values (literal and variable) at every argument position of the probe:
+//	   the request must be refused in one of the two legitimate shapes (request-level, or
+//	   field-level error under fieldPath+[arg...] with the field's resolver not called).
+//	C. numeric and custom-scalar arguments at width boundaries through the generated server: the
+//	   resolver sees the same mathematical number or the field is refused - never another number.
 package main
 
 import (
@@ -203,11 +204,12 @@ func invalidsFor(typ string) []invalid {
 	case "ID":
 		out = append(out, invalid{`1.5`, `1.5`, "float-for-id"}, invalid{`true`, `true`, "bool-for-id"}, invalid{`{a: 1}`, `{"a":1}`, "object-for-id"})
 	case "Color":
-		out = append(out, invalid{`"RED"`, "", "string-literal-for-enum"}, invalid{`PURPLE`, `"PURPLE"`, "unknown-enum-value"}, invalid{`1`, `1`, "int-for-enum"})
+		out = append(out, invalid{`"RED"`, "", "string-literal-for-enum"}, invalid{`PURPLE`, `"PURPLE"`, "unknown-enum-value"}, invalid{`1`, `1`, "int-for-enum"},
+			invalid{`red`, `"red"`, "wrong-case-enum-value"}, invalid{"", `"Blue"`, "mixed-case-enum-variable"})
 	case "In":
 		out = append(out, invalid{`{zzz: 1}`, `{"zzz":1}`, "unknown-input-field"}, invalid{`{a: "x"}`, `{"a":"x"}`, "nested-string-for-int"},
 			invalid{`{c: ["x"]}`, `{"c":["x"]}`, "nested-list-element-type"}, invalid{`{c: [null]}`, `{"c":[null]}`, "null-in-non-null-list"},
-			invalid{`{e: {x: null}}`, `{"e":{"x":null}}`, "explicit-null-for-non-null-with-default"}, invalid{`{d: PURPLE}`, `{"d":"PURPLE"}`, "nested-unknown-enum"},
+			invalid{`{e: {x: null}}`, `{"e":{"x":null}}`, "explicit-null-for-non-null-with-default"}, invalid{`{d: PURPLE}`, `{"d":"PURPLE"}`, "nested-unknown-enum"}, invalid{`{d: green}`, `{"d":"green"}`, "nested-wrong-case-enum"},
 			invalid{`{b: null}`, `{"b":null}`, "null-for-non-null-field"}, invalid{`"str"`, `"str"`, "string-for-input-object"}, invalid{`{e: {z: {y: 1}}}`, `{"e":{"z":{"y":1}}}`, "deep-nested-int-for-string-list"},
 			invalid{`{e: {z: {x: "q"}}}`, `{"e":{"z":{"x":"q"}}}`, "deep-nested-string-for-int"})
 	case "[In!]":
